@@ -459,12 +459,16 @@ impl FileManager {
 
         for index_name in self.list_indexes(schema, table)? {
             let index_path = self.index_file_path(schema, table, &index_name);
+            #[cfg(kahflane_turdb_verif)]
+            crate::verif::point("file_remove");
             fs::remove_file(&index_path).wrap_err_with(|| {
                 format!("failed to remove index file '{}'", index_path.display())
             })?;
         }
 
         let table_path = self.table_file_path(schema, table);
+        #[cfg(kahflane_turdb_verif)]
+        crate::verif::point("file_remove");
         fs::remove_file(&table_path)
             .wrap_err_with(|| format!("failed to remove table file '{}'", table_path.display()))?;
 
@@ -489,6 +493,8 @@ impl FileManager {
         let old_table_path = self.table_file_path(schema, old_name);
         let new_table_path = self.table_file_path(schema, new_name);
 
+        #[cfg(kahflane_turdb_verif)]
+        crate::verif::point("file_rename");
         fs::rename(&old_table_path, &new_table_path).wrap_err_with(|| {
             format!(
                 "failed to rename table file from '{}' to '{}'",
